@@ -8,7 +8,13 @@ import mici.matrices as mm
 
 KINDS = ["identity", "pscaled", "scaled", "pdiag", "diag", "tri", "invtri", "trifac", "trifacpd", "densedef", "densepd", "densesq", "densesym",
          "orth", "sorth", "eigsym", "eigpd", "softabs", "blockdiag", "symblockdiag", "pdblockdiag", "lowrank_sq", "lowrank_sym", "lowrank_pd",
-         "lowrank_pd_down", "pdproduct", "invlu"]
+         "lowrank_pd_down", "pdproduct", "invlu",
+         # optional precomputed factors supplied at construction (any consistent order of the eigendecomposition is legitimate)
+         "densesym_ev", "densesym_evec", "densesym_both", "densesq_lu", "densesq_lut", "densedef_fac", "densepd_fac",
+         # derived objects: the base object has been USED (factorisations / inverse / capacitance cached) and is then rescaled, which hands the
+         # cached pieces on to the new object
+         "used*densepd", "used*densedef", "used*densesq", "used*densesym", "used*trifacpd", "used*eigpd", "used*lowrank_pd", "used*lowrank_pd_down",
+         "used*lowrank_sym", "used*pdproduct"]
 LEAF18 = KINDS[:18]
 
 
@@ -21,8 +27,24 @@ def orth(rng, n):
     return np.linalg.qr(rng.standard_normal((n, n)))[0]
 
 
+def touch(m):
+    """populate every lazily computed piece of a matrix object"""
+    for a in ("inv", "log_abs_det", "sqrt", "eigval", "eigvec", "T", "diagonal"):
+        try:
+            v = getattr(m, a)
+            if a in ("inv", "sqrt"):
+                np.asarray(v.array)
+        except (NotImplementedError, AttributeError, RuntimeError):
+            pass
+
+
 def make_leaf(rng, n, kind):
     """-> (matrix object, dense array it must represent)"""
+    if kind.startswith("used*"):
+        m, d = make_leaf(rng, n, kind[5:])
+        touch(m)
+        s = float(rng.choice([0.3, 2.5, 7.0]))
+        return (m / s, d / s) if rng.integers(2) else (s * m, s * d)
     if kind == "identity":
         return mm.IdentityMatrix(n), np.eye(n)
     if kind == "pscaled":
@@ -59,7 +81,9 @@ def make_leaf(rng, n, kind):
         return mm.DensePositiveDefiniteMatrix(a), a
     if kind == "densesq":
         a = rng.standard_normal((n, n)) + 2 * np.eye(n)
-        return mm.DenseSquareMatrix(a), a
+        if rng.integers(2):
+            a = np.asfortranarray(a)        # memory layout is not part of a matrix's value
+        return mm.DenseSquareMatrix(a), a.copy()
     if kind == "invlu":
         a = rng.standard_normal((n, n)) + 2 * np.eye(n)
         tr = bool(rng.integers(2))
@@ -68,6 +92,34 @@ def make_leaf(rng, n, kind):
         a = rng.standard_normal((n, n))
         a = a + a.T + 3 * np.eye(n)
         return mm.DenseSymmetricMatrix(a), a
+    if kind.startswith("densesym_"):
+        a = rng.standard_normal((n, n))
+        a = a + a.T + 3 * np.eye(n)
+        w, v = np.linalg.eigh(a)
+        perm = rng.permutation(n) if n > 1 else np.arange(n)
+        if n > 1 and np.all(perm == np.arange(n)):
+            perm = perm[::-1].copy()
+        if kind == "densesym_ev":
+            return mm.DenseSymmetricMatrix(a, eigval=w[perm].copy()), a
+        if kind == "densesym_evec":
+            return mm.DenseSymmetricMatrix(a, eigvec=v[:, perm].copy()), a
+        return mm.DenseSymmetricMatrix(a, eigvec=v[:, perm].copy(), eigval=w[perm].copy()), a
+    if kind in ("densesq_lu", "densesq_lut"):
+        a = rng.standard_normal((n, n)) + 2 * np.eye(n)
+        tr = kind.endswith("t")
+        return mm.DenseSquareMatrix(a, lu_and_piv=sla.lu_factor(a.T if tr else a), lu_transposed=tr), a
+    if kind in ("densedef_fac", "densepd_fac"):
+        a = spd(rng, n)
+        lower = bool(rng.integers(2))
+        c = np.linalg.cholesky(a)
+        fac = mm.TriangularMatrix(c if lower else c.T.copy(), lower=lower) if lower else None
+        if fac is None:     # an upper factor U with U U^T = a
+            r = np.linalg.cholesky(a[::-1, ::-1])[::-1, ::-1]
+            fac = mm.TriangularMatrix(r, lower=False)
+        if kind == "densepd_fac":
+            return mm.DensePositiveDefiniteMatrix(a, factor=fac), a
+        pd = bool(rng.integers(2))
+        return mm.DenseDefiniteMatrix(a if pd else -a, factor=fac, is_posdef=pd), (a if pd else -a)
     if kind == "orth":
         q = orth(rng, n)
         return mm.OrthogonalMatrix(q), q
